@@ -437,8 +437,19 @@ def run_job(job):
     except JobTimeout:
         raise
     except BaseException as ex:  # noqa: BLE001
+        extract_error = traceback.format_exc()[-1500:]
+        # the harness could not model the accepted text; the pipeline itself is still observed: does parse + schedule return?
+        VT.drain()
+        try:
+            PARSER.parse(text)
+        except JobTimeout:
+            raise
+        except BaseException:  # noqa: BLE001
+            return [{"id": job["id"], "sc": 0, "status": "crash", "phase": "pipeline",
+                     "error": traceback.format_exc()[-1500:], "events": [], "nevents": len(VT.drain()), "extract_error": extract_error[-400:]}]
+        VT.drain()
         return [{"id": job["id"], "sc": 0, "status": "crash", "phase": "extract",
-                 "error": traceback.format_exc()[-1500:], "events": []}]
+                 "error": extract_error, "events": []}]
     VT.drain()
     status = "ok"
     err = None
